@@ -155,45 +155,62 @@ Print Assumptions T16_4e_hse_monotone.
 
 (* ===================== parsing.safe_callable_names ===================== *)
 
-(* T16.5  every function name declared safe is a base name or names a definition whose inspected
-   statements and returned values are free of side effects relative to the final safe set *)
+(* T16.5  every function name declared safe is a base name or names a definition -- not shadowed by another kind
+   of binding, not shared with another definition -- whose inspected statements and returned values are free of
+   side effects relative to the final safe set *)
 Theorem T16_5_safe_names_justified :
-  forall base shadowed defs x,
-    mem x (fst (safe_functions base shadowed defs)) = true ->
+  forall base shadowed dups defs x,
+    mem x (fst (safe_functions base shadowed dups defs)) = true ->
     mem x base = true \/
-    exists d, In d defs /\ f_name d = x /\ mem x shadowed = false /\
-              fdef_pure d (fst (safe_functions base shadowed defs)) = true.
+    exists d, In d defs /\ f_name d = x /\ mem x shadowed = false /\ mem x dups = false /\
+              fdef_pure d (fst (safe_functions base shadowed dups defs)) = true.
 Proof. exact safe_names_justified. Qed.
 Print Assumptions T16_5_safe_names_justified.
 
 Theorem T16_5b_safe_class_justified :
-  forall base shadowed defs c,
-    class_safe (snd (safe_functions base shadowed defs)) c = true ->
+  forall base shadowed dups defs c,
+    class_safe (snd (safe_functions base shadowed dups defs)) c = true ->
     forall i, In i (snd c) ->
     exists d, nth_error defs i = Some d /\ mem (f_name d) shadowed = false /\
-              fdef_pure d (fst (safe_functions base shadowed defs)) = true.
+              fdef_pure d (fst (safe_functions base shadowed dups defs)) = true.
 Proof. exact safe_class_justified. Qed.
 Print Assumptions T16_5b_safe_class_justified.
 
-(* R16.5  names, not definitions, are declared safe (known finding F16-12) ... *)
+(* R16.5  names, not definitions, are whitelisted: without the list of shared names a second definition is taken
+   for the first one (the repaired safe_callable_names computes that list) ... *)
 Theorem R16_5_refuted_duplicate :
   exists base shadowed defs d,
-    In d defs /\ mem (f_name d) (fst (safe_functions base shadowed defs)) = true /\
+    In d defs /\ mem (f_name d) (fst (safe_functions base shadowed [] defs)) = true /\
     mem (f_name d) base = false /\ mem (f_name d) shadowed = false /\
-    fdef_pure d (fst (safe_functions base shadowed defs)) = false.
+    fdef_pure d (fst (safe_functions base shadowed [] defs)) = false.
 Proof. exact safe_names_refuted_duplicate. Qed.
 Print Assumptions R16_5_refuted_duplicate.
 
-(* ... T16.5 (partial): with distinct definition names EVERY definition declared safe is free of side
-   effects *)
+(* ... T16.5 (partial): when the names outside [dups] are distinct, EVERY definition whose name is declared safe is
+   free of side effects *)
 Theorem T16_5_partial_unique_names :
-  forall base shadowed defs d,
-    nodupb (map f_name defs) = true ->
+  forall base shadowed dups defs d,
+    nodupb (map f_name (unshared dups defs)) = true ->
     In d defs -> mem (f_name d) base = false ->
-    mem (f_name d) (fst (safe_functions base shadowed defs)) = true ->
-    fdef_pure d (fst (safe_functions base shadowed defs)) = true.
+    mem (f_name d) (fst (safe_functions base shadowed dups defs)) = true ->
+    fdef_pure d (fst (safe_functions base shadowed dups defs)) = true.
 Proof. exact safe_names_partial_unique. Qed.
 Print Assumptions T16_5_partial_unique_names.
+
+(* T16.4f  the guards of delete_pointless_statements: what it deletes is judged free of side effects (T16.4 applies),
+   inside a try body with handlers it cannot raise, when `_` is read somewhere it does not touch `_`, and it
+   iterates over nothing but objects built on the spot *)
+Theorem T16_4f_pointless_guards : forall body in_try us_used wl k s,
+  nth_error (stmts_list body) k = Some s ->
+  nth k (pointless_ctx in_try us_used body wl) false = true ->
+  hse_s s wl = false /\ (in_try = true -> cannot_raise s = true) /\
+  (us_used = true -> mentions_us s = false) /\ iter_unk_s s = false.
+Proof. exact pointless_ctx_sound. Qed.
+Print Assumptions T16_4f_pointless_guards.
+
+Theorem T16_4g_cannot_raise_inert : forall s o, cannot_raise s = true -> exec s o = ([], ONormal, o).
+Proof. exact cannot_raise_inert. Qed.
+Print Assumptions T16_4g_cannot_raise_inert.
 
 (* T16.6  the regenerated constants.SAFE_CALLABLES lists no builtin known to have a side effect
    (next, anext, help, print, input, exec, ...) *)
